@@ -40,7 +40,11 @@ prop('C03', 'faces are reciprocal: both sides see the same face, stored once', [
   tb('listed_by_both', "faceIndices_mem'", 'T03.2 a stored unshifted face is listed by both of its cells'),
   tb('antisymmetric_flux_cancels', 'flux_cancels', 'T03.3 an antisymmetric flux summed over all cells leaves only wall and periodic faces'),
 ])
-prop('C18', 'clipping a cell is independent of vertex storage order', ['MVoro.Proofs.CycleBoundary'], [
+CW = ('MVoro.Proofs.CycleWalk', 'MVoro.CycleWalk')
+def cw(name, orig, doc): return (name, CW[0], CW[1], orig, doc)
+CM = ('MVoro.Proofs.ClipModel', 'MVoro.ClipModel')
+def cm(name, orig, doc): return (name, CM[0], CM[1], orig, doc)
+prop('C18', 'clipping a cell is independent of vertex storage order', ['MVoro.Proofs.CycleBoundary', 'MVoro.Proofs.CycleWalk', 'MVoro.Proofs.ClipModel'], [
   cb('step_keeps_boundary', 'step_closed', 'T18.2 one successful `try_extend` keeps "cycle edges = boundary of the triangles added so far"'),
   cb('init_boundary', 'init_inv', 'T18.2 after `init` the cycle is the boundary of the first triangle'),
   cb('closing_triangle_excluded_necessarily', 'step_del_closing_false', 'T18.2 the closing triangle of a full sphere must be excluded: the code would leave a wrong 2-cycle'),
@@ -56,6 +60,14 @@ prop('C18', 'clipping a cell is independent of vertex storage order', ['MVoro.Pr
   cb('closed_preserved', 'closed_preserved', 'T18.4 the clipped triple set is again a closed surface'),
   cb('greedy_closed', 'greedy_closed', 'T18.4 same, from a successful greedy run'),
   cb('no_closed_part_automatic', 'greedy_of_raw', 'T18.2 the side condition (triangle still open) is automatic when the removed set has no closed part, and the cycle stays a single cycle'),
+  cw('walk_visits_cycle_once', 'walk_spec', 'T18.1 (bookkeeping) if `start` lies on the cycle and `len` is the number of entries on it, `len` steps from `start` visit every entry of the (single, injective) cycle exactly once'),
+  cw('init_establishes_bookkeeping', 'init_cw', 'T18.1 `init` (reset walk + triangle) leaves `start`/`len` describing the triangle'),
+  cw('try_extend_keeps_bookkeeping', 'tryExtend_cw', 'T18.1 every successful `try_extend` (insert: `len + 1`; delete: `len - 1`, `start` moved off the deleted entry) keeps `start`/`len` describing the stored cycle'),
+  cw('compute_boundary_keeps_bookkeeping', 'computeBoundary_cw', 'T18.1 after a successful `compute_boundary` `start`/`len` describe the stored cycle'),
+  cw('new_vertex_pairs_are_boundary_edges', 'computeBoundary_pairs', 'T18.3 end to end: the `(cur, next)` pairs read from `iter().take(len + 1)` after `compute_boundary` are exactly the boundary edges of the removed region, each once'),
+  cw('next_clip_may_reset', 'computeBoundary_reset', 'T18.1 the state left behind satisfies the reset invariant the next `init` needs'),
+  cm('partition_loop_spec', 'partitionLoop_spec', 'the partition loop of `clip_by_plane` returns a permutation of the vertex array whose first `num_v` entries are exactly the kept vertices'),
+  cm('clip_is_clipDuals', 'clip_spec', 'T18.3/T18.4 `clip_by_plane` (executable model) end to end: the clipped vertex array is, as a multiset of dual triples, `clipDuals T R p` = kept triples + one `(cur, next, p)` per boundary edge of the removed region - for every storage order and every rotation of the triples'),
 ])
 prop('C19', 'public geometry helpers satisfy their defining equations', ['MVoro.Proofs.GeomHelpers'], [
   gh('intersect_planes_on', 'intersectPlanes_on', 'T19.1 the three-plane intersection lies on all three planes'),
